@@ -594,3 +594,141 @@ Proof.
       rewrite !len_app, !ed_opt_hdr_len. rewrite !len_app, !ed_opt_hdr_len in HY. lia.
     + rewrite ed_maxopt_of_pdu, Ho. apply ed_last_num_insert_mid.
 Qed.
+
+(* ---- coap_add_token / coap_update_token ---- *)
+
+Lemma ed_token_area_len t : len (token_area t) = len t + ed_bias (len t).
+Proof.
+  unfold token_area, ed_bias. repeat case_if; rewrite ?len_cons, ?len_app; try lia.
+  unfold be16. change (len [((len t - 269) / 256) mod 256; (len t - 269) mod 256]) with 2. lia.
+Qed.
+
+Lemma ed_drop_app_le {A} n (a b : list A) : 0 <= n <= len a -> drop n (a ++ b) = drop n a ++ b.
+Proof.
+  intros H. unfold drop, len in *. rewrite skipn_app.
+  replace (Z.to_nat n - length a)%nat with 0%nat by lia. reflexivity.
+Qed.
+
+Lemma ed_token_grow_bytes (T C J E : bytes) g :
+  len J = g -> 0 < g -> len E = g + len T ->
+  exists M, ed_memmove ((T ++ C) ++ J) g 0 (len (T ++ C)) = Some M /\
+            ed_bwrite M 0 E = Some (E ++ C).
+Proof.
+  intros HJ Hg HE. pose proof (len_nonneg T). pose proof (len_nonneg C).
+  unfold ed_memmove. rewrite !len_app.
+  replace ((0 <=? g) && (0 <=? 0) && (0 <=? len T + len C) &&
+           (g + (len T + len C) <=? len T + len C + len J) &&
+           (0 + (len T + len C) <=? len T + len C + len J)) with true by lia.
+  eexists. split; [reflexivity|].
+  rewrite ed_drop_0. rewrite <- len_app. rewrite take_app_exact.
+  rewrite (ed_drop_all (g + len (T ++ C))) by (rewrite !len_app; lia).
+  rewrite app_nil_r.
+  set (G := take g ((T ++ C) ++ J)).
+  assert (HH : len G = g) by (subst G; apply len_take; rewrite !len_app; lia).
+  rewrite app_assoc.
+  apply ed_bwrite_front. rewrite len_app. lia.
+Qed.
+
+Lemma ed_content_empty m :
+  len (content_area m) = 0 -> m_opts m = [] /\ m_payload m = [].
+Proof.
+  unfold content_area. rewrite len_app.
+  pose proof (len_nonneg (opts_enc 0 (m_opts m))). pose proof (len_nonneg (payload_area (m_payload m))).
+  intros H1. split.
+  - destruct (m_opts m) as [|[n v] tl]; [reflexivity|]. cbn [opts_enc] in *.
+    rewrite len_app in *. pose proof (ed_opt_enc_pos (n - 0) v). pose proof (len_nonneg (opts_enc n tl)). lia.
+  - destruct (m_payload m) as [|x xs]; [reflexivity|]. cbn [payload_area] in *.
+    rewrite len_cons in *. pose proof (len_nonneg (x :: xs)). lia.
+Qed.
+
+Lemma ed_of_pdu_with_token q t by_ :
+  by_ = len (token_area t) - len (token_area (m_token (p_msg q))) ->
+  mkEb (m_type (p_msg q)) (m_code (p_msg q)) (m_mid (p_msg q))
+       (token_area t ++ content_area (p_msg q)) (len (token_area t)) (len t)
+       (last_num (m_opts (p_msg q))) (ed_shift_data (ed_of_pdu q) by_) (p_max q) =
+  ed_of_pdu (ed_with_token q t).
+Proof.
+  intros ->. rewrite ed_shift_data_of_pdu. unfold ed_of_pdu, ed_of_msg, ed_with_token.
+  cbn [p_msg p_max m_type m_code m_mid m_token m_opts m_payload eb_buf].
+  unfold content_area. cbn [m_opts m_payload]. f_equal.
+  destruct (m_payload (p_msg q)); [reflexivity|]. rewrite !len_app. lia.
+Qed.
+
+Lemma ed_b_token_refines q t :
+  0 <= p_max q ->
+  ed_b_token (ed_of_pdu q) t =
+  Some (fst (ed_token q t), ed_of_pdu (snd (ed_token q t))).
+Proof.
+  intros Hmax. unfold ed_b_token, ed_b_token_gen, ed_token.
+  set (m := p_msg q). set (T := token_area (m_token m)). set (C := content_area m).
+  set (E := token_area t).
+  pose proof (len_nonneg T) as HT0. pose proof (len_nonneg C) as HC0. pose proof (len_nonneg E) as HE0.
+  assert (Hused : ed_used (ed_of_pdu q) = len T + len C) by (apply ed_used_of_pdu).
+  assert (Hbuf : eb_buf (ed_of_pdu q) = T ++ C) by reflexivity.
+  assert (HnlE : len t + ed_bias (len t) = len E) by (symmetry; apply ed_token_area_len).
+  assert (Hres : forall by_, by_ = len E - len T ->
+    mkEb (eb_type (ed_of_pdu q)) (eb_code (ed_of_pdu q)) (eb_mid (ed_of_pdu q)) (E ++ C)
+         (len E) (len t) (eb_maxopt (ed_of_pdu q)) (ed_shift_data (ed_of_pdu q) by_)
+         (eb_max (ed_of_pdu q)) = ed_of_pdu (ed_with_token q t)).
+  { intros by_ Hby. apply ed_of_pdu_with_token. exact Hby. }
+  destruct (ed_used (ed_of_pdu q) =? 0) eqn:Eu.
+  - (* coap_add_token on an empty PDU *)
+    assert (HT : len T = 0) by lia. assert (HC : len C = 0) by lia.
+    destruct (ed_content_empty m HC) as [Hno Hnp].
+    unfold ed_b_add_token. rewrite Eu. cbn [negb].
+    destruct (65804 <? len t) eqn:El; [reflexivity|].
+    rewrite HnlE. rewrite ed_fits_of_pdu.
+    fold T. fold E. unfold used. fold m T C.
+    replace (len T + len C + (len E - len T)) with (len E) by lia.
+    assert (Hfit : (len E - len T <=? 0) || fits q (len E) = fits q (len E)).
+    { destruct (len E - len T <=? 0) eqn:E0; [|reflexivity].
+      unfold fits. assert (len E = 0) by lia. lia. }
+    rewrite Hfit. destruct (fits q (len E)) eqn:Ef; cbn [negb fst snd]; [|reflexivity].
+    unfold ed_grow. cbn [app].
+    rewrite <- (app_nil_r (repeat ed_junk (Z.to_nat (len E)))).
+    rewrite ed_bwrite_front by (rewrite ed_len_repeat; lia).
+    f_equal. f_equal. rewrite <- (Hres (len E - len T) eq_refl).
+    assert (HCn : C = []) by (destruct C; [reflexivity|rewrite len_cons in HC; pose proof (len_nonneg C); lia]).
+    rewrite HCn. f_equal.
+    * rewrite ed_maxopt_of_pdu. fold m. rewrite Hno. reflexivity.
+    * rewrite ed_shift_data_of_pdu. fold m. rewrite Hnp. reflexivity.
+  - destruct (65804 <? len t) eqn:El; [reflexivity|].
+    rewrite HnlE. change (eb_etl (ed_of_pdu q)) with (len T).
+    rewrite ed_fits_of_pdu, Hused. fold T E. unfold used. fold m T C.
+    destruct (len E =? len T) eqn:E1.
+    + (* same size: only the token bytes change *)
+      replace (len E - len T <=? 0) with true by lia. cbn [orb fst snd].
+      rewrite Hbuf. rewrite ed_bwrite_front by lia. f_equal. f_equal.
+      apply Hres. lia.
+    + destruct (len T <? len E) eqn:E2.
+      * (* the token area grows: everything moves up *)
+        replace (len E - len T <=? 0) with false by lia. cbn [orb].
+        replace (len T + len C + len E - len T) with (len T + len C + (len E - len T)) by lia.
+        destruct (fits q (len T + len C + (len E - len T))) eqn:Ef; cbn [negb fst snd];
+          [|reflexivity].
+        unfold ed_grow. rewrite Hbuf.
+        set (J := repeat ed_junk (Z.to_nat (len E - len T))).
+        assert (HJ : len J = len E - len T) by (subst J; rewrite ed_len_repeat; lia).
+        destruct (ed_token_grow_bytes T C J E (len E - len T) HJ ltac:(lia) ltac:(lia))
+          as (M & HM & HW).
+        rewrite len_app in HM. rewrite HM, HW. f_equal. f_equal. apply Hres. reflexivity.
+      * (* the token area shrinks: everything moves down *)
+        replace (len E - len T <=? 0) with true by lia. cbn [orb fst snd].
+        rewrite Hbuf. unfold ed_memmove. rewrite len_app.
+        replace ((0 <=? 0) && (0 <=? len T - len E) &&
+                 (0 <=? len T + len C - (len T - len E)) &&
+                 (0 + (len T + len C - (len T - len E)) <=? len T + len C) &&
+                 (len T - len E + (len T + len C - (len T - len E)) <=? len T + len C))
+          with true by lia.
+        rewrite ed_take_0. cbn [app].
+        assert (Hd : drop (len T - len E) (T ++ C) = drop (len T - len E) T ++ C)
+          by (apply ed_drop_app_le; lia).
+        assert (Hdl : len (drop (len T - len E) T) = len E)
+          by (rewrite len_drop by lia; lia).
+        rewrite Hd.
+        rewrite (ed_take_all (len T + len C - (len T - len E)) (drop (len T - len E) T ++ C))
+          by (rewrite len_app; lia).
+        rewrite ed_take_app_le by (rewrite len_app; lia).
+        rewrite ed_take_all by (rewrite len_app; lia).
+        rewrite ed_bwrite_front by lia. f_equal. f_equal. apply Hres. lia.
+Qed.
